@@ -58,6 +58,13 @@ MUTATIONS = {
         ('webserver', 'tonic-web/src/call.rs', r'acc\.put_slice\(value\.as_bytes\(\)\);', 'acc.put_slice(key.as_ref());', 'trailer value replaced by its name'),
         ('webserver', 'tonic-web/src/call.rs', r'frame\.put_u8\(GRPC_WEB_TRAILERS_BIT\);', 'frame.put_u8(0);', 'trailers frame without the 0x80 flag'),
         ('webserver', 'tonic-web/src/call.rs', r'\(self\.buf\.len\(\) / 4\) \* 4', '(self.buf.len() / 3) * 3', 'base64 carry not a multiple of four'),
+        ('webservice', 'tonic-web/src/service.rs', r'case: Case::immediate\(StatusCode::METHOD_NOT_ALLOWED\)', 'case: Case::immediate(StatusCode::BAD_REQUEST)', 'non-POST grpc-web answered 400'),
+        ('webservice', 'tonic-web/src/service.rs', r'RequestKind::Other\(Version::HTTP_2\) =>', 'RequestKind::Other(Version::HTTP_11) =>', 'HTTP/1.1 passes through instead of HTTP/2'),
+        ('webservice', 'tonic-web/src/service.rs', r'\.insert\(header::CONTENT_TYPE, GRPC_CONTENT_TYPE\);', '.remove(header::CONTENT_TYPE);', 'inner service does not get the gRPC content-type'),
+        ('webservice', 'tonic-web/src/call.rs', r'Some\(GRPC_WEB_TEXT\) \| Some\(GRPC_WEB_TEXT_PROTO\)\n', 'Some(GRPC_WEB_TEXT)\n', 'grpc-web-text+proto not recognised as grpc-web'),
+        ('webservice', 'tonic-web/src/service.rs', r'HeaderValue::from_static\(encoding\.to_content_type\(\)\)', 'HeaderValue::from_static(Encoding::None.to_content_type())', 'text response labelled binary'),
+        ('webservice', 'tonic-web/src/call.rs', r'Some\(GRPC_WEB_TEXT_PROTO\) \| Some\(GRPC_WEB_TEXT\) => Encoding::Base64', 'Some(GRPC_WEB_TEXT_PROTO) | Some(GRPC_WEB) => Encoding::Base64', 'binary content-type decoded as base64'),
+        ('webservice', 'tonic-web/src/service.rs', r'future: self\.inner\.call\(coerce_request\(req, encoding\)\),\s*accept,', 'future: self.inner.call(coerce_request(req, encoding)),\n                        accept: encoding,', 'response flavour taken from the request content-type instead of accept'),
     ],
     'C17': [
         ('webclient', 'tonic-web/src/call.rs', r'len \+= msg_len as usize \+ 4 \+ 1;', 'len += msg_len as usize + 4;', 'frame walk skips one byte too few'),
